@@ -492,7 +492,19 @@ func (s *Stream) emitCepFlushSync(results []map[string]any) {
 		return
 	}
 	s.sendResultForFlush(results) // 尽量送达 resultChan（短阻塞），不静默丢
-	s.invokeSinksInline(results)
+	// The sinks run in the Stop call itself; a sink that blocks forever must not
+	// keep Stop from returning, so the flush is bounded by the same grace period
+	// as the join of the worker goroutines (the blocked sink is abandoned).
+	flushed := make(chan struct{})
+	go func() {
+		defer close(flushed)
+		s.invokeSinksInline(results)
+	}()
+	select {
+	case <-flushed:
+	case <-time.After(defaultStopGrace):
+		s.log.Warn("Stream.Stop: flushing MATCH_RECOGNIZE results did not finish within %s; a sink may be blocked", defaultStopGrace)
+	}
 }
 
 // invokeSinksInline 在当前 goroutine 同步调用全部 sinks 与 syncSinks（带 recover），
